@@ -1,15 +1,16 @@
 /-
 Model of the concurrent quota strategy as it is reached through the streams engine.  Core Lean only.
 
-Code modelled (lunar-engine/streams):
-* `resources/quota/concurrent_strategy.go` — `Inc`, `Allowed`, `Dec`, `generateMember`,
-  `checkForExpiredRequests` / `validateMemberIntegrity` (the GC);
-* `lunar-context/memory_state.go` — `AtomicSAddWithMaxValuesAllowed`, `SRem`, `SMembers` (which hands out the
-  stored slice itself, so the GC iterates over the very array that `SRem` shifts in place);
-* `resources/resource_management.go` — `GetQuota` (remembers only the FIRST quota a request id touched in
-  `reqIDToQuota`), `OnRequestDrop`, `OnResponseFinish`;
+Code modelled (lunar-engine/streams), WITH the repairs F04e/F02c (landed), F02a, F02b, F02d, F02e:
+* `resources/quota/concurrent_strategy.go` — `Inc`, `Allowed`, `Dec` (walks up all ancestors, F02d),
+  `generateMember`, `checkForExpiredRequests` / `validateMemberIntegrity` (the GC); the status and the member are
+  written in one critical section (F02e);
+* `lunar-context/memory_state.go` — `AtomicSAddWithMaxValuesAllowed`, `SRem`, `SMembers` (returns a copy, F02b);
+* `resources/resource_management.go` — `GetQuota` (remembers EVERY quota a request id touched, in order, F02a),
+  `OnRequestDrop` (decrements all of them), `OnResponseFinish`;
 * `streams.go` / `stream/stream.go` — `executeReq`, `executeRes`, `OnError`, `OnRequestDrop` on an early
-  response, the response-direction system end flows (`QuotaProcessorDec`) after a short-circuit;
+  response, the response-direction system end flows (`QuotaProcessorDec` of every concurrent quota of the filter,
+  F04e) after a short-circuit;
 * `processors/limiter`, `processors/quota-processor-inc`, `processors/quota-processor-dec`.
 
 Two layers.
@@ -22,8 +23,7 @@ Two layers.
   to completion, written as compositions of `micro` — this is what the correspondence check drives.
 
 Not modelled: cluster liveness (the instance part of a member is the constant `unknown`), Redis shared state,
-the two-section status write of `Inc` (`setReqStatus` then `.member =`) is one step, fixed-window companions
-are never limiting (`Inc`/`Allowed` admit, `Dec` does nothing a concurrent quota can see).
+fixed-window companions are never limiting (`Inc`/`Allowed` admit, `Dec` does nothing a concurrent quota can see).
 -/
 namespace LunarVerif.C02
 
@@ -82,36 +82,25 @@ def Cfg.sysOrder (cfg : Cfg) : List Nat :=
   ((List.range cfg.quotas.length).filter (fun q => (cfg.parent q).isNone)).flatMap fun root =>
     root :: (List.range cfg.quotas.length).filter (fun q => q != root && cfg.rootOf q == root)
 
-/-- `generateSystemFlow` / `appendSystemProcessorsToFlow` connect `stream start → p₀` and then overwrite `*p₀`
-    with every further processor reference while the connections between them are appended to a copy of the
-    slice: what ends up wired is `stream start → LAST processor → stream end`.  So of all `QuotaProcessorInc`
-    on a filter only the last one runs, and of all `QuotaProcessorDec` only the last one. -/
-def Cfg.wiredInc (cfg : Cfg) : Option Nat := cfg.sysOrder.getLast?
-def Cfg.wiredDec (cfg : Cfg) : Option Nat := (cfg.sysOrder.filter cfg.isConc).getLast?
+/-- Quotas whose system start flow (`QuotaProcessorInc`) runs with its logic on: those no user flow
+    processor references (`disableQuotaProcessorLogic`), in system-flow order. -/
+def Cfg.sysStart (cfg : Cfg) : List Nat := cfg.sysOrder.filter (fun q => !cfg.refd.contains q)
 
-/-- Quotas whose system start flow (`QuotaProcessorInc`) runs with its logic on: the wired one, if no user
-    flow processor references it (`disableQuotaProcessorLogic`). -/
-def Cfg.sysStart (cfg : Cfg) : List Nat :=
-  match cfg.wiredInc with
-  | some q => if cfg.refd.contains q then [] else [q]
-  | none => []
-
-/-- The first quota any request touches (`GetQuota(id, reqID)` is called by the live system Inc processors
-    first, then by the limiters in flow order). -/
-def Cfg.firstTouched (cfg : Cfg) : Option Nat := (cfg.sysStart ++ cfg.order).head?
+/-- The `QuotaProcessorDec` of the filter's response-direction system end flow: one per concurrent quota. -/
+def Cfg.sysDecs (cfg : Cfg) : List Nat := cfg.sysOrder.filter cfg.isConc
 
 structure S where
   now : Nat
   nextGC : Nat                          -- instant at which the GC goroutines are due next
   members : Nat → List Member           -- per quota: the set (a Go slice: append / remove first equal)
   allowed : Nat → Nat → Option Member   -- per quota: allowedReq[reqId] (status is `reqAllowed` whenever present)
-  rm : Nat → Option Nat                 -- ResourceManagement.reqIDToQuota
+  rm : Nat → List Nat                   -- ResourceManagement.reqIDToQuota: the quotas a request touched, in order
   adds : Nat → Member → Nat             -- ghost: successful set adds
   rems : Nat → Member → Nat             -- ghost: set removals that removed something
 
 def S.init (cfg : Cfg) : S :=
   { now := cfg.t0, nextGC := cfg.t0 + cfg.gc, members := fun _ => [], allowed := fun _ _ => none,
-    rm := fun _ => none, adds := fun _ _ => 0, rems := fun _ _ => 0 }
+    rm := fun _ => [], adds := fun _ _ => 0, rems := fun _ _ => 0 }
 
 /-- One critical section that writes shared state. -/
 inductive Micro
@@ -119,7 +108,7 @@ inductive Micro
   | srem (q : Nat) (m : Member)        -- SRem(set_q, m)
   | setst (q r : Nat) (m : Member)     -- allowedReq_q[r] = {reqAllowed, m}
   | del (q r : Nat)                    -- delete(allowedReq_q, r)
-  | rmSet (r q : Nat)                  -- if !reqIDToQuota.Exists(r) { reqIDToQuota.Set(r, q) }
+  | rmSet (r q : Nat)                  -- append q to reqIDToQuota[r] unless already there
   | rmPop (r : Nat)                    -- reqIDToQuota.Pop(r)
   | clock (now next : Nat)             -- the clock moves / the GC timer is re-armed
 
@@ -136,8 +125,8 @@ def micro (cfg : Cfg) (s : S) : Micro → S
     else s
   | .setst q r m => { s with allowed := fun q' r' => if q' = q ∧ r' = r then some m else s.allowed q' r' }
   | .del q r => { s with allowed := fun q' r' => if q' = q ∧ r' = r then none else s.allowed q' r' }
-  | .rmSet r q => if (s.rm r).isSome then s else { s with rm := fun r' => if r' = r then some q else s.rm r' }
-  | .rmPop r => { s with rm := fun r' => if r' = r then none else s.rm r' }
+  | .rmSet r q => if (s.rm r).contains q then s else { s with rm := fun r' => if r' = r then s.rm r ++ [q] else s.rm r' }
+  | .rmPop r => { s with rm := fun r' => if r' = r then [] else s.rm r' }
   | .clock now next => { s with now := now, nextGC := next }
 
 /-- Everything reachable by any sequence of critical sections with any arguments. -/
@@ -167,16 +156,16 @@ def allowedChain (cfg : Cfg) : List Nat → S → Nat → S × Bool
     let s1 := incChain cfg (q :: rest) s r
     if (s1.allowed q r).isSome then allowedChain cfg rest s1 r else (s1, false)
 
-/-- `concurrentStrategy.Dec` on `q :: ancestors`. -/
+/-- `concurrentStrategy.Dec` on `q :: ancestors`: remove the recorded member if there is one, `Dec` the parent
+    in any case, delete the status. -/
 def decChain (cfg : Cfg) : List Nat → S → Nat → S
   | [], s, _ => s
   | q :: rest, s, r =>
-    match s.allowed q r with
-    | none => s                                            -- `if !found { return nil }`
-    | some m =>
-      let s1 := micro cfg s (.srem q m)
-      let s2 := decChain cfg rest s1 r                     -- parent.Dec
-      micro cfg s2 (.del q r)
+    let s1 := match s.allowed q r with
+      | none => s
+      | some m => micro cfg s (.srem q m)
+    let s2 := decChain cfg rest s1 r                       -- parent.Dec
+    micro cfg s2 (.del q r)
 
 /-- Limiter processor: `GetQuota(q, reqID)`, `Inc`, `Allowed`. -/
 def limiter (cfg : Cfg) (s : S) (q r : Nat) : S × Bool :=
@@ -199,15 +188,15 @@ def sysInc (cfg : Cfg) : List Nat → S → Nat → S
     let s0 := micro cfg s (.rmSet r q)
     sysInc cfg rest (if cfg.isConc q then incChain cfg (cfg.chainOf q) s0 r else s0) r
 
-/-- `ResourceManagement.OnRequestDrop`: pop the remembered (first) quota and `Dec` it. -/
-def drop (cfg : Cfg) (s : S) (r : Nat) : S :=
-  match s.rm r with
-  | none => s
-  | some q =>
-    let s1 := micro cfg s (.rmPop r)
-    if cfg.isConc q then decChain cfg (cfg.chainOf q) s1 r else s1
+/-- `Dec` of every quota in the list (fixed-window quotas: nothing a concurrent quota can see). -/
+def decList (cfg : Cfg) : List Nat → S → Nat → S
+  | [], s, _ => s
+  | q :: rest, s, r => decList cfg rest (if cfg.isConc q then decChain cfg (cfg.chainOf q) s r else s) r
 
-/-- Response-direction system end flow: the wired `QuotaProcessorDec` (`GetQuota(q, reqID)`, `Dec`). -/
+/-- `ResourceManagement.OnRequestDrop`: pop the quotas the request touched and `Dec` each of them. -/
+def drop (cfg : Cfg) (s : S) (r : Nat) : S := decList cfg (s.rm r) (micro cfg s (.rmPop r)) r
+
+/-- Response-direction system end flow: one `QuotaProcessorDec` per quota (`GetQuota(q, reqID)`, `Dec`). -/
 def sysDec (cfg : Cfg) : List Nat → S → Nat → S
   | [], s, _ => s
   | q :: rest, s, r =>
@@ -216,7 +205,7 @@ def sysDec (cfg : Cfg) : List Nat → S → Nat → S
 
 /-- `executeRes`: system end flows, then `OnResponseFinish`. -/
 def endFlows (cfg : Cfg) (s : S) (r : Nat) : S :=
-  micro cfg (sysDec cfg cfg.wiredDec.toList s r) (.rmPop r)
+  micro cfg (sysDec cfg cfg.sysDecs s r) (.rmPop r)
 
 inductive Verdict | admitted | refused | early | none
 deriving DecidableEq, Repr
@@ -235,25 +224,16 @@ def errEvent (cfg : Cfg) (s : S) (r : Nat) : S := drop cfg s r
 
 /-! ### The GC -/
 
-/-- `checkForExpiredRequests` of quota `q` at `s.now`.  `arr` is the backing array of the slice `SMembers`
-    returned; the loop reads `arr[i]` at iteration `i`, while every `SRem` shifts the live prefix of that same
-    array to the left (leaving a stale duplicate of the last live element behind). -/
-def gcLoop (cfg : Cfg) (q : Nat) : List Nat → List Member → S → S
-  | [], _, s => s
-  | i :: is, arr, s =>
-    match arr[i]? with
-    | none => gcLoop cfg q is arr s
-    | some m =>
-      if m.expiry ≤ s.now then                              -- Until(expiry) <= 0
-        let live := s.members q
-        let arr' := if m ∈ live then live.erase m ++ arr.drop (live.length - 1) else arr
-        let s1 := micro cfg s (.srem q m)
-        let s2 := micro cfg s1 (.del q m.req)
-        gcLoop cfg q is arr' s2
-      else gcLoop cfg q is arr s
+/-- `checkForExpiredRequests` of quota `q` at `s.now`, over the snapshot `SMembers` returned. -/
+def gcLoop (cfg : Cfg) (q : Nat) : List Member → S → S
+  | [], s => s
+  | m :: ms, s =>
+    if m.expiry ≤ s.now then                                -- Until(expiry) <= 0
+      gcLoop cfg q ms (micro cfg (micro cfg s (.srem q m)) (.del q m.req))
+    else gcLoop cfg q ms s
 
 def gcQuota (cfg : Cfg) (s : S) (q : Nat) : S :=
-  if cfg.isConc q then gcLoop cfg q (List.range (s.members q).length) (s.members q) s else s
+  if cfg.isConc q then gcLoop cfg q (s.members q) s else s
 
 def gcAll (cfg : Cfg) (s : S) : S := (List.range cfg.quotas.length).foldl (gcQuota cfg) s
 
@@ -304,11 +284,13 @@ def final (cfg : Cfg) : S → List Event → S
   | s, e :: es => final cfg (event cfg s e).1 es
 
 /-- Decidable well-formedness: positive GC interval; every concurrent quota's ancestor chain is made of
-    distinct concurrent quotas; flow order mentions existing quotas. -/
+    distinct concurrent quotas; flow order mentions existing quotas; every concurrent quota sits in a quota tree
+    (so it has its `QuotaProcessorDec` in the system flow). -/
 def Cfg.wf (cfg : Cfg) : Bool :=
   decide (0 < cfg.gc) &&
   (List.range cfg.quotas.length).all (fun q =>
     !cfg.isConc q || (decide (cfg.chainOf q).Nodup && (cfg.chainOf q).all cfg.isConc)) &&
-  cfg.order.all (fun q => decide (q < cfg.quotas.length))
+  cfg.order.all (fun q => decide (q < cfg.quotas.length)) &&
+  (List.range cfg.quotas.length).all (fun q => !cfg.isConc q || cfg.sysDecs.contains q)
 
 end LunarVerif.C02
